@@ -693,7 +693,7 @@ impl Engine for GridSimB {
 
     fn runs(&self, tier: Tier) -> u64 {
         match tier {
-            Tier::Quick => 400_000,
+            Tier::Quick => 800_000,
             Tier::Thorough => 8_000_000,
         }
     }
@@ -1106,7 +1106,7 @@ impl Engine for GridSimC {
 
     fn runs(&self, tier: Tier) -> u64 {
         match tier {
-            Tier::Quick => 400_000,
+            Tier::Quick => 800_000,
             Tier::Thorough => 10_000_000,
         }
     }
